@@ -177,9 +177,13 @@ func (h *History) updateModel(cm *ClientModel, rec *OpRec) {
 			cm.TxID = cm.txCounter
 		}
 	case "set-ac1":
+		// MySQL: switching autocommit from 0 to 1 commits the open transaction; setting it to 1 when it is 1
+		// already changes nothing, a transaction opened with BEGIN stays open
+		if !cm.AC {
+			cm.TxOpen = false
+			cm.TxID = 0
+		}
 		cm.AC = true
-		cm.TxOpen = false
-		cm.TxID = 0
 	case "names":
 		// Arg is "charset" (the connection collation becomes the default collation of the
 		// character set, as in MySQL) or "charset/collation"
